@@ -579,6 +579,10 @@ package updog
 //@ pred BigWInv(w *BigIndexWriter) := w != nil && SchemaMaps(w.schema) && w.db != nil && w.tempDB != nil && w.db != w.tempDB
 //@   && DBOpen(w.tempDB) && w.tempDB.wopen && w.tempTx != nil && allocated(w.tempTx) && w.tempTx.gdb == w.tempDB && w.tempTx.writable && !w.tempTx.done && shas(w.tempTx.work)
 
+// what the deferred Close calls of a caller need on every path, also after an error of AddRow or Flush
+//@ pred BigWClosable(w *BigIndexWriter) := w != nil && w.tempDB != nil && w.db != nil && w.db != w.tempDB
+//@   && (w.tempTx == nil ==> !w.tempDB.wopen)
+//@   && (w.tempTx != nil ==> allocated(w.tempTx) && w.tempTx.gdb == w.tempDB && w.tempTx.writable && (w.tempTx.done ==> !w.tempDB.wopen))
 //@ func [C06,C05,C19] NewBigIndexWriter(db, tempDB) (w, err)
 //@   requires DBOpen(db) && DBOpen(tempDB) && db != tempDB && !tempDB.wopen
 //@   modifies tempDB.committed; tempDB.commits; tempDB.ncommits; tempDB.wopen
@@ -596,6 +600,7 @@ package updog
 //@   ensures [C05,C18] every_call_consumes_one_id: idx.nextRowID == old(idx.nextRowID) + 1
 //@   ensures [C05,C18] err == nil ==> BigWInv(idx)
 //@   ensures [C18] idx.mtx.held == 0
+//@   ensures [C19] closable_on_every_path: BigWClosable(idx) && idx.db.wopen == old(idx.db.wopen)
 //@   ensures [C06] output_untouched: idx.db.committed == old(idx.db.committed) && idx.db.ncommits == old(idx.db.ncommits) && idx.db == old(idx.db) && idx.tempDB == old(idx.tempDB)
 //@   loop 1
 //@     invariant BigWInv(idx) && idx.mtx.held == 2 && idx.nextRowID == old(idx.nextRowID) && rowID == old(idx.nextRowID)
@@ -604,7 +609,8 @@ package updog
 
 //@ func [C19,C05] (*BigIndexWriter).Close(idx) (err)
 //@   requires idx != nil && idx.mtx.held == 0 && (idx.tempTx != nil ==> idx.tempTx.gdb != nil)
-//@   modifies heap bbolt.Tx.done at idx.tempTx; heap bbolt.DB.wopen
+//@   modifies heap bbolt.Tx.done at idx.tempTx; heap bbolt.DB.wopen at ((idx.tempTx != nil) ? idx.tempTx.gdb : nil)
+//@   ensures [C19] temp_database_can_be_closed: old(BigWClosable(idx)) ==> !idx.tempDB.wopen
 //@   ensures [C19] pending_transaction_finished: idx.tempTx != nil ==> idx.tempTx.done
 //@   ensures [C19] idx.tempTx != nil && idx.tempTx.writable && !old(idx.tempTx.done) ==> !idx.tempTx.gdb.wopen
 //@   ensures idx.mtx.held == 0
@@ -618,6 +624,7 @@ package updog
 //@        && shas(idx.db.committed) && sin(idx.db.committed, kS()) && sin(idx.db.committed, kI()) && blen(sval(idx.db.committed, kI())) == 4
 //@   ensures [C05,C01] row_counter_is_number_of_AddRow_calls: err == nil ==> be32dec(sval(idx.db.committed, kI())) == idx.nextRowID
 //@   ensures [C19] no_transaction_left_open: !idx.db.wopen && !idx.tempDB.wopen
+//@   ensures [C19] closable_on_every_path: BigWClosable(idx) && idx.db == old(idx.db) && idx.tempDB == old(idx.tempDB)
 //@   loop 1
 //@     invariant idx != nil && idx.db != nil && idx.db != idx.tempDB && !idx.db.closed && idx.db.wopen && idx.db.ncommits == old(idx.db.ncommits) && idx.db.committed == old(idx.db.committed)
 //@     invariant tx != nil && !(tx in old($alloc)) && tx.gdb == idx.db && tx.writable && !tx.done && dataBucket != nil && dataBucket.gtx == tx && shas(tx.work)
